@@ -101,11 +101,14 @@ def arithOp {F : Type} [FloatLike F] [Widen F Float] (args : List String) : Opti
         | .ok p => boundTol (F := F) p.mean (crit (critReq conf p.dof)) p.sem
         | _ => 0.0
       let o := tokOutcome (tokInterval tol) out
-      let model := joinBar [o, o, o, o, o, o, statsToks a]
+      -- two partial states (the first third and the rest) merged with `+`
+      let merged : Arith F := (Arith.fromList (xs.take (xs.length / 3))).merge (Arith.fromList (xs.drop (xs.length / 3)))
+      let oMerged := tokOutcome (tokInterval tol) (merged.ciMean (W := Float) crit conf)
+      let model := joinBar [o, o, o, o, o, o, oMerged, statsToks a]
       let c := match needs with
         | r :: _ => crit r
         | [] => 0.0 / 0.0
-      let (cs, sk) := oracleMeanCI (F := F) conf (xs.map FloatLike.toF64) c (impl.take 6)
+      let (cs, sk) := oracleMeanCI (F := F) conf (xs.map FloatLike.toF64) c (impl.take 7)
       { model := model, prop := cs, skipped := sk } }
 
 /-! ### geometric / harmonic -/
@@ -238,16 +241,18 @@ def harmOp {F : Type} [FloatLike F] [Widen F Float] (args : List String) : Optio
         | _ => 0.0
       let aT := tokOutcome (tokInterval (fmax tolA tolAux)) a
       let am := relTok (Arith.fromList xs).mean
-      -- oracle: harmonic CI = reciprocal of the arithmetic CI of the reciprocals, ends exchanged,
-      -- whenever the reciprocal-space bound used is strictly positive
+      -- oracle: harmonic CI = reciprocal of the arithmetic CI of the reciprocals, ends exchanged
       let inv (b : Float) : Float := FloatLike.toF64 (NumOps.div (NumOps.one : F) (Widen.down b : F))
       let cs := match impl with
         | h1 :: _ :: _ :: _ :: ar :: _ =>
           relateIntervals (F := F) "harm=1/arith(1/x)" (32.0 * FloatLike.u F)
-            (fun i => match i.map FloatLike.toF64 with
-              | .twoSided lo hi => if lo > 0.0 then some (.twoSided (inv hi) (inv lo)) else none
-              | .lower hi => if hi > 0.0 then some (.upper (inv hi)) else none
-              | .upper lo => if lo > 0.0 then some (.lower (inv lo)) else none) ar h1
+            (fun i =>
+              -- bound by bound: a strictly positive reciprocal-space bound is inverted, any other gives +inf
+              let rb (r : Float) : Float := if r > 0.0 then inv r else if r.isNaN then r else 1.0 / 0.0
+              match i.map FloatLike.toF64 with
+              | .twoSided lo hi => some (.twoSided (rb hi) (rb lo))
+              | .lower hi => some (.upper (rb hi))
+              | .upper lo => some (.lower (rb lo))) ar h1
         | _ => []
       { model := joinBar [o, o, o, stT, aT, [am]], prop := cs } }
 
